@@ -105,6 +105,10 @@ def oracle(text: str, toks) -> tuple[str, object] | None:
                 return ("line-end-of-open-logical-line-is:NL", {"index": i, "start": t.start})
             if t.type in (T.ERRORTOKEN, T.NAME, T.NUMBER, T.OP):
                 return (f"line-end-swallowed-by:{name}", {"index": i, "start": t.start, "string": t.string[:40]})
+        # ... and conversely a line end inside brackets the text has opened and not closed joins lines: a NEWLINE token there
+        # would end the logical line early and give it a second NEWLINE later
+        if depth > 0 and t.type == T.NEWLINE and t.string:
+            return ("newline-inside-open-brackets", {"index": i, "start": t.start, "depth": depth})
         if t.type == T.NEWLINE:
             open_line = False
         elif t.type not in (T.WS, T.COMMENT, T.NL, T.INDENT, T.DEDENT, T.ENDMARKER) and not (t.type == T.ERRORTOKEN and t.string.isspace()):
